@@ -401,11 +401,13 @@ def lex_rule(ctx: Ctx, ge: GrammarEval) -> None:
     t = " ".join(ast.unparse(cr.node).split())
     r.check("if type(parsed_register[0]) == str: return self._reg_mapping[parsed_register[0]] else: return int(parsed_register[0][1])" in t,
             "convert", cr.loc(), "register conversion is no longer {ABI name -> table, xN -> N}")
-    sa = m.method("Parser", "_sanitize", own=True)
-    t = " ".join(ast.unparse(sa.node).split())
-    import re as _re
-    r.check(bool(_re.search(r"\w+\.strip\(\) and \(?not \w+\.strip\(\)\.startswith\('#'\)", t)) and bool(_re.search(r"\w+\.split\('#', 1\)\[0\]\.strip\(\)", t)), "sanitize", sa.loc(),
-            "blank lines / comment lines / trailing comments are no longer removed")
+    from ..parsershape import KEEP, TEXT, sanitize_form
+    sa, form = sanitize_form(m)
+    ok = form is not None and form["text"] == TEXT and form["keep"] in KEEP and form["iter"] == "enumerate(P0.program.splitlines())"
+    r.check(ok, "sanitize", sa.loc(),
+            "blank lines / comment lines / trailing comments are no longer removed: the sanitized program is not "
+            "[(n, line.split('#', 1)[0].strip()) for every line that has something before its comment] "
+            f"(recovered form: {form})")
     # immediates: decimal, hex, binary with optional sign
     imm = ge.get("_pattern_imm")
     from ..ppgram import Langs, alt, lit, seq, G, NUMS, HEXNUMS
